@@ -7,6 +7,7 @@ import (
 	"go/token"
 	"go/types"
 	"sort"
+	"strconv"
 	"strings"
 
 	"golang.org/x/tools/go/ssa"
@@ -987,6 +988,42 @@ func (c *Ctx) checkStatementSeparation(r *Report) {
 				"for a statement that is not the first of its block there is a path that writes nothing between it and the previous statement: adjacent statements fuse (a b -> ab, a - -b -> a--b, return x / y -> return xy) and the text parses differently", blockTrail(c, bad)...)
 		} else {
 			r.Ok("C02.R5", ssaFuncName(fn), "a separator is written before every statement but the first ("+mode+")", c.Pos(fn.Pos()))
+		}
+	}
+	// (a') the compact form drops the separator after an expression only behind a closing brace or bracket: the
+	// texts compared with ps.last (in the compact separator function and the helpers of its package) are among
+	// "}" and "]". (That a separator may be dropped at all is the known finding above; a larger set - after ")"
+	// the next statement's "(" or "[" turns two statements into a call or an index - is a different violation.)
+	if compact != nil {
+		cfn := c.SSAFn(compact)
+		var extra []string
+		nCmp := 0
+		for _, fn := range c.localHelpers(cfn, 2) {
+			eachInstr(fn, func(in ssa.Instruction) {
+				bin, ok := in.(*ssa.BinOp)
+				if !ok || (bin.Op != token.EQL && bin.Op != token.NEQ) {
+					return
+				}
+				for _, pair := range [][2]ssa.Value{{bin.X, bin.Y}, {bin.Y, bin.X}} {
+					ld, ok := pair[0].(*ssa.UnOp)
+					if !ok || !isFieldAddrOf(ld.X, psT, "last") {
+						continue
+					}
+					k, ok := pair[1].(*ssa.Const)
+					if !ok || k.Value == nil || k.Value.Kind() != constant.String {
+						continue
+					}
+					nCmp++
+					if str := constant.StringVal(k.Value); str != "}" && str != "]" {
+						extra = append(extra, strconv.Quote(str))
+					}
+				}
+			})
+		}
+		sort.Strings(extra)
+		if nCmp > 0 {
+			r.Check(len(extra) == 0, "C02.R5", ssaFuncName(cfn), "the compact separator is dropped only behind a closing brace or bracket", c.Pos(cfn.Pos()),
+				"the compact form also decides on the previous text being "+strings.Join(extra, ", ")+": after a closing parenthesis the next statement's opening parenthesis or bracket makes the two statements one call or index expression (x=f(1) then (a,b)=>a+b prints as x=f(1)(a,b)=>{a+b})")
 		}
 	}
 	// (b) ps.prev typestate: after the store of prev, no child print before the next separator decision
